@@ -89,12 +89,46 @@ class BRot:
         return f"stubQ_{self.n_b}"
 
 
+class SVStub:
+    """stands in for scipy.spatial.SphericalVoronoi (Qhull) while the REAL Voronoi constructors of molgri run: generic vertices on the
+    sphere and three of them per region (what the constructors derive from it -- reduced vertices, region re-indexing -- is exercised,
+    the geometry itself is not what any harness reads: the matrices and volumes come from the contract stubs)"""
+
+    def __init__(self, points, radius=1, center=None, threshold=1e-06):
+        self.points = np.asarray(points, dtype=float)
+        n, d = self.points.shape
+        rng = np.random.default_rng(10 * n + d)
+        v = rng.normal(size=(2 * n, d))
+        self.vertices = v / np.linalg.norm(v, axis=1)[:, None] * float(radius)
+        self.regions = [[i, (i + 1) % (2 * n), (i + n) % (2 * n)] for i in range(n)]
+        self.radius = radius
+        self.center = np.zeros(d)
+
+    def sort_vertices_of_regions(self):
+        pass
+
+    def calculate_areas(self):
+        return np.full(len(self.points), 4 * np.pi / len(self.points))
+
+
+BYPASSED = []   # constructions that had to fall back to object.__new__ (an AttributeError on such an object is a harness artefact)
+
+
 def make_half_voronoi(Vm, N, G, full_stub):
-    h = object.__new__(Vm.HalfRotobjVoronoi)
-    full = np.vstack([G, -G])
+    """the real HalfRotobjVoronoi over [G; -G], built by its REAL __init__ chain (HalfRotobjVoronoi -> RotobjVoronoi -> AbstractVoronoi)
+    with Qhull's SphericalVoronoi replaced by `SVStub`; its full-sphere collaborator is then replaced by the contract stub"""
+    from harness.common import bound
+    from symx.core import noprint
+    full = np.vstack([np.asarray(G, dtype=float), -np.asarray(G, dtype=float)])
+    try:
+        with bound(Vm, SphericalVoronoi=SVStub, np=np, print=noprint):
+            h = Vm.HalfRotobjVoronoi(full, using_detailed_grid=False)
+    except Exception as e:  # noqa: BLE001 - the constructor needs more of Qhull than the stand-in offers: fall back, and say so
+        BYPASSED.append(f"HalfRotobjVoronoi.__init__: {type(e).__name__}: {e}")
+        h = object.__new__(Vm.HalfRotobjVoronoi)
+        h.spherical_voronoi = _SV(full)
+        h.my_array = full
     h.full_voronoi = full_stub
-    h.spherical_voronoi = _SV(full)
-    h.my_array = full
     return h
 
 
@@ -141,3 +175,119 @@ def make_fullgrid(F, TR, Vm, n_b, dirstub, radii_arr, factor, G=None, full_stub=
         fg = F.FullGrid(str(n_b), str(dirstub.get_N()), _t_text(len(radii_arr)), factor=factor, position_grid_cartesian=cartesian)
     fg.position_grid.t_grid.trans_grid = radii_arr
     return fg
+
+
+# ------------------------------------------------------------------------------------------------ decoy objects (cross-object state)
+# Objects that live in the same process as the object under test and must not influence it.  Every decoy is something that can
+# really coexist with the object under test:
+#   * "collision twin": the same direction grid and a radial grid with OTHER radii whose shortened (32-bit) md5 identifier collides with
+#     the identifier of the grid under test -- the package's grid names are lossy keys, so two different grids may share one name;
+#   * "Cartesian twin": the same names with position_grid_cartesian=True (the names do not encode the mode);
+#   * a grid with another metric factor f.
+# They are built by the same real constructors, asked for everything, and then thrown away.  `dv(name)` hands out fresh positive
+# quantities (symbolic in the symbolic run, floats in the replay).
+POS_GETTERS = ("get_position_grid_as_array", "get_all_position_volumes", "get_adjacency_of_position_grid", "get_borders_of_position_grid",
+               "get_distances_of_position_grid", "get_radii")
+
+
+def decoy_value_factory(eng):
+    """dv(name) for symbolic runs: a z3 Real declared positive (global assumption from its creation on)"""
+    import z3
+    from symx.core import SR, Engine
+    pool = {}
+
+    def dv(name):
+        if name not in pool:
+            pool[name] = z3.Real("decoy_" + name)
+            eng.declare_sign(pool[name], "+")
+            eng.assume_global(pool[name] > 0)
+            if Engine.cur is not None:
+                Engine.cur.pc.append(pool[name] > 0)
+        return SR(pool[name])
+    return dv
+
+
+def float_decoy_values():
+    pool = {}
+
+    def dv(name):
+        if name not in pool:
+            pool[name] = 0.317 + 0.0731 * len(pool) + 0.011 * (len(name) % 7)
+        return pool[name]
+    return dv
+
+
+def _ask(obj, names, extra=()):
+    for g in names:
+        try:
+            getattr(obj, g)()
+        except Exception:  # noqa: BLE001 - a decoy's own failure is not the subject (PathAbort / Unsupported are BaseException and pass)
+            pass
+    for fn in extra:
+        try:
+            fn()
+        except Exception:  # noqa: BLE001
+            pass
+
+
+def _stub_cartesian_getters(pg, mkarr, dv, tag):
+    """Cartesian cell geometry is Qhull: the twin's three Cartesian getters answer with fresh positive quantities on the adjacency pattern"""
+    def vols():
+        return mkarr([dv(f"{tag}cv{i}") for i in range(len(pg))])
+
+    def mat(kind):
+        def f():
+            M = pg.get_adjacency_of_position_grid()
+            if len(M.row):
+                M.data = mkarr([dv(f"{tag}{kind}%d_%d" % tuple(sorted((int(i), int(j))))) for i, j in zip(M.row, M.col)])
+            return M
+        return f
+    pg.get_cartesian_volumes = vols
+    pg.get_cartesian_surfaces = mat("cs")
+    pg.get_cartesian_distances = mat("cd")
+
+
+class _NoQhull:
+    def __init__(self, points, *a, **k):
+        self.points = points
+        self.point_region, self.regions, self.vertices = [], [], []
+
+
+def decoy_radii(n_t, mkarr, dv, tag):
+    acc, out = None, []
+    for k in range(n_t):
+        acc = dv(f"{tag}r{k}") if acc is None else acc + dv(f"{tag}r{k}")
+        out.append(acc)
+    return mkarr(out)
+
+
+def exercise_position_decoys(F, TR, dirstub, radii_arr, mkarr, dv, tag="A"):
+    """a collision twin (other radii, same name) and a Cartesian twin (same names, same radii) of a PositionGrid; both asked for everything"""
+    from harness.common import bound
+    n_t = len(radii_arr)
+    d1 = make_positiongrid(F, TR, dirstub, decoy_radii(n_t, mkarr, dv, tag))
+    _ask(d1, POS_GETTERS, [lambda p=p: d1._get_N_N_position_array(sel_property=p) for p in ("adjacency", "border_len", "center_distances")])
+    with bound(F, Voronoi=_NoQhull):
+        d2 = make_positiongrid(F, TR, dirstub, radii_arr.copy(), cartesian=True)
+    _stub_cartesian_getters(d2, mkarr, dv, tag)
+    _ask(d2, POS_GETTERS, [lambda p=p: d2._get_N_N_position_array(sel_property=p) for p in ("adjacency", "border_len", "center_distances")])
+    return d1, d2
+
+
+FULL_GETTERS = ("get_full_grid_as_array", "get_total_volumes", "get_full_adjacency", "get_full_borders", "get_full_distances", "get_full_prefactors")
+
+
+def exercise_full_decoys(F, TR, Vm, n_b, dirstub, radii_arr, factor, mkarr, dv, G=None, full_stub=None, tag="A"):
+    """FullGrid decoys: another factor + colliding radial grid; a Cartesian twin with the SAME names and factor"""
+    from harness.common import bound
+    n_t = len(radii_arr)
+    with bound(F, Voronoi=_NoQhull):
+        d2 = make_fullgrid(F, TR, Vm, n_b, dirstub, radii_arr.copy(), factor, G, full_stub, cartesian=True)
+    _stub_cartesian_getters(d2.position_grid, mkarr, dv, tag)
+    _ask(d2, FULL_GETTERS)
+    _ask(d2.position_grid, POS_GETTERS)
+    # the decoy that differs most (other factor, other radii under the same name) is the one constructed and asked LAST
+    d1 = make_fullgrid(F, TR, Vm, n_b, dirstub, decoy_radii(n_t, mkarr, dv, tag), dv(f"{tag}f"), G, full_stub)
+    _ask(d1, FULL_GETTERS)
+    _ask(d1.position_grid, POS_GETTERS)
+    return d1, d2
